@@ -3,7 +3,7 @@
    that the hypotheses are satisfiable and that the model computes the hand-derived results of
    harness/src/fontgen/selftest.rs. *)
 From Coq Require Import List NArith ZArith Bool Arith Permutation.
-From RB Require Import Base.Result Model.Buffer Model.Font Model.Morx Model.MorxPipe Proofs.MorxP.
+From RB Require Import Gen.MorxConsts Base.Result Model.Buffer Model.Font Model.Morx Model.MorxPipe Proofs.MorxP.
 Import ListNotations.
 
 (* ------------------------------------------------------------------ 1. rearrangement *)
@@ -12,6 +12,14 @@ Import ListNotations.
    backward copy loop over the middle, the two write-back loops, the two swaps — Model/Morx.v
    rearrange_range, loops literal in range-relative indices) equals Apple's verb table for all 16
    verbs and EVERY marked range within HB_MAX_CONTEXT_LENGTH = 64: x is an arbitrary middle. *)
+(* the constants the model uses are the ones in the current source (regenerated: Gen/MorxConsts.v) *)
+Theorem C17_constants :
+  morx_rearrangement_map = REARR_MAP /\ morx_ligature_max_matches = N.of_nat LIG_MAX_MATCHES /\
+  morx_lig_action_last = 0x80000000%N /\ morx_lig_action_store = 0x40000000%N /\ morx_lig_action_offset = 0x3FFFFFFF%N /\
+  morx_verb = 15%N /\ morx_mark_first = 0x8000%N /\ morx_mark_last = 0x2000%N.
+Proof. repeat split; exact eq_refl. Qed.
+Print Assumptions C17_constants.
+
 Theorem C17_rearrange : forall (a b c d : info) (x : list info),
   (len_ok x -> rearrange_verb 0 x = x) /\                                                       (* no change *)
   (len_ok (a :: x) -> rearrange_verb 1 (a :: x) = x ++ [a]) /\                                  (* Ax => xA *)
@@ -231,7 +239,7 @@ Theorem C17_ligature_stack_pair : forall actions comps ligs ps0 e b ops c' b' op
   nth_error comps (Z.to_nat (Z.of_N (gid xb) + lig_offset act0)) = Some c0 ->
   (Z.of_N (gid xa) + lig_offset act1 <? 0)%Z = false ->
   nth_error comps (Z.to_nat (Z.of_N (gid xa) + lig_offset act1)) = Some c1 ->
-  nth_error ligs (N.to_nat (((0 + c0) mod 65536 + c1) mod 65536)) = Some lig ->
+  nth_error ligs (N.to_nat (0 + c0 + c1)) = Some lig ->
   lig_transition actions comps ligs (1, ps0) e b ops = Ok (c', b', ops', a) -> ok b' = true ->
   map gid (arr b') = map gid P ++ [lig; DELETED_GLYPH] ++ map gid t /\ length (pre b') = length P + 1 /\
   (exists b4 b5, pre b4 = P ++ [set_gid xa lig; set_gid xb DELETED_GLYPH] /\ rest b4 = t /\ level b4 = level b /\
